@@ -22,6 +22,8 @@ CLAIMED = {
          "As C05, including b empty, b holding the zero-length prefix, b's root below or beside a's root."),
  "C08": ("model_checking", "TLC over pairs of maps: inherited-LPM bookkeeping of union/difference vs declarative LPM in the other view's entries; rows replayed on the code",
          "As C05; the annotation fields of every one-sided item are compared."),
+ "C18": ("model_checking", "TLC with host-token variants on every argument: abstract map keyed by network bits, stored representation = last inserting call; all returned prefixes compared with host bits on the code",
+         "Every key is passed with several host-bit patterns; returned prefixes of lookups, iterators, views, entries and set operations are compared including host bits on all types that retain them."),
  "C19": ("model_checking", "TLC over pairs of maps: PartialEq algorithm vs equality of sorted entry sequences; ==, != in both directions replayed on the code",
          "Pairs of reachable states incl. strict-prefix pairs, empty map, equal contents with different shapes."),
  "C09": ("model_checking", "TLC: cover/spm walks = declarative covering entries by length; rows replayed on the code",
